@@ -416,24 +416,35 @@ def rec_class():
             self._hook('M', rel)
             if self.k7.hook_raise == ('M', rel):
                 raise HookBoom('on_match')
-            return ('m', rel)
+            return _hv('m', rel)
 
         def on_skip(self, base, name):
             rel = self._rel(base, name)
             self._hook('S', rel)
             if self.k7.hook_raise == ('S', rel):
                 raise HookBoom('on_skip')
-            return ('s', rel) if (self.k7.skip_all or rel in self.k7.skip_val) else None
+            return _hv('s', rel) if (self.k7.skip_all or rel in self.k7.skip_val) else None
 
         def on_error(self, base, name):
             rel = self._rel(base, name)
             self._hook('E', rel)
             if self.k7.hook_raise == ('E', rel):
                 raise HookBoom('on_error')
-            return ('e', rel) if (self.k7.err_all or rel in self.k7.err_val) else None
+            return _hv('e', rel) if (self.k7.err_all or rel in self.k7.err_val) else None
 
     _REC = Rec
     return Rec
+
+
+class FalsyTuple(tuple):
+    """a hook value that is falsy but not None: must be passed through unchanged (C15: the code tests `is not None`;
+    added after seeded change C15d, which truth-tested the on_error value)"""
+    def __bool__(self) -> bool:
+        return False
+
+
+def _hv(kind: str, rel: str):
+    return FalsyTuple((kind, rel)) if len(rel) % 2 == 0 else (kind, rel)
 
 
 def yv(v) -> str:
